@@ -134,6 +134,7 @@ if utils.SAGE_AVAILABLE:
 #arbitrary
 ERROR_THRESHOLD = 1e-8
 BOUNDARY_THRESHOLD = 1e-5
+COMPLEX_THRESHOLD = 1e-3
 
 CHECK_LIGHT_CONE = False
 
@@ -1784,9 +1785,13 @@ class Isometry(projective.Transformation, HyperbolicObject):
         in_plane = np.where(norms > ERROR_THRESHOLD, 0, 1)
 
         # eigenvectors which are not real do not give points of H^n at
-        # all (their Minkowski "norm" above is meaningless)
+        # all (their Minkowski "norm" above is meaningless). Genuinely
+        # complex (unit) eigenvectors have imaginary parts of size
+        # O(1); the eigenvectors of a defective real eigenvalue (for a
+        # parabolic isometry) come with imaginary parts of order
+        # eps^(1/3), and must still be counted.
         in_plane = np.where(
-            np.max(np.abs(np.imag(eigvecs)), axis=-2) > ERROR_THRESHOLD,
+            np.max(np.abs(np.imag(eigvecs)), axis=-2) > COMPLEX_THRESHOLD,
             0, in_plane
         )
 
